@@ -44,3 +44,64 @@ def bar_snapshot(bar):
 
 def track_snapshot(track):
     return [bar_snapshot(b) for b in track.bars]
+
+
+# ---- R-score builders (public API only) ---------------------------------------------------------------
+
+class BuildError(Exception):
+    """the harness could not build the described music (never a verdict about mingus' exporters)"""
+
+
+def build_nc(notes, bpm=None):
+    from vlib.ref import rvalues  # noqa
+    if notes is None:
+        return None
+    nc = NoteContainer([Note(n[0], n[1], channel=n[2], velocity=n[3]) for n in notes])
+    if len(nc) != len(notes):
+        raise BuildError("container dropped notes: %r" % (notes,))
+    if bpm is not None:
+        nc.bpm = bpm
+    return nc
+
+
+def build_bar(bd):
+    from vlib.ref import rvalues as RV
+    b = Bar(bd["key"], (bd["meter"][0], bd["meter"][1]))
+    for e in bd["entries"]:
+        if not b.place_notes(build_nc(e["notes"], e.get("bpm")), RV.number(e["v"])):
+            raise BuildError("bar refused entry %r in %r" % (e, bd["meter"]))
+    return b
+
+
+def build_instrument(spec):
+    from mingus.containers.instrument import Instrument, MidiInstrument
+    if spec is None:
+        return None
+    if spec["kind"] == "midi":
+        i = MidiInstrument()
+        i.instrument_nr = spec["nr"]
+        i.name = spec["name"]
+        return i
+    i = Instrument()
+    i.name = spec["name"]
+    return i
+
+
+def build_track(td):
+    from mingus.containers import Track
+    t = Track(build_instrument(td["instr"]))
+    if td.get("name") is not None:
+        t.name = td["name"]
+    for bd in td["bars"]:
+        t.add_bar(build_bar(bd))
+    return t
+
+
+def build_comp(cd):
+    from mingus.containers import Composition
+    c = Composition()
+    c.set_title(cd.get("title", "Untitled"), cd.get("subtitle", ""))
+    c.set_author(cd.get("author", ""), "")
+    for td in cd["tracks"]:
+        c.add_track(build_track(td))
+    return c
